@@ -1,7 +1,9 @@
 package fuzzer
 
 import (
+	"fmt"
 	"math/rand"
+	"strings"
 
 	"github.com/smarthome-go/homescript/v3/homescript/analyzer/ast"
 )
@@ -21,6 +23,19 @@ type Transformer struct {
 	modifications uint
 
 	Out string
+
+	// Text of the program which is being transformed: helper variables must not be named like anything in it.
+	programText string
+}
+
+// Returns a name for a helper variable which the transformed program does not use itself:
+// a helper named like a variable of the program would capture the program's uses of that name.
+func (self *Transformer) helperIdent(base string) string {
+	name := base
+	for i := 1; strings.Contains(self.programText, name); i++ {
+		name = fmt.Sprintf("%s_%d", base, i)
+	}
+	return name
 }
 
 func NewTransformer(seed int64) Transformer {
@@ -44,6 +59,8 @@ func (self *Transformer) TransformPasses(tree ast.AnalyzedProgram, passes int) [
 }
 
 func (self *Transformer) Transform(tree ast.AnalyzedProgram) ast.AnalyzedProgram {
+	self.programText = tree.String()
+
 	output := ast.AnalyzedProgram{
 		Imports:   make([]ast.AnalyzedImport, 0),
 		Types:     make([]ast.AnalyzedTypeDefinition, 0), // Should not transform these, stuff will break
